@@ -58,7 +58,13 @@ class BloomSystem(System):
                     if (m, k, s) in seen:
                         continue
                     seen.add((m, k, s))
-                    cfgs.append(dict(n=n, p=p, strat=s, depth=depth, seed=seed, m=m, k=k, cost=m * k))
+                    d = depth
+                    if tier == "quick":
+                        if prop in ("C05", "C19") and s not in ("table", "fnv", "dec_int"):
+                            continue  # export/load and queries do not depend on the strategy beyond the probe positions
+                        if prop == "C01" and s not in ("table", "fnv"):
+                            d = depth - 1
+                    cfgs.append(dict(n=n, p=p, strat=s, depth=d, seed=seed, m=m, k=k, cost=600 * 6 ** (d - 3)))
         if prop == "C06":
             cfgs = [c for c in cfgs if c["strat"] == "fnv"]  # the C reference implements the documented FNV-1a rule
         if seed:
@@ -85,7 +91,8 @@ class BloomSystem(System):
         keys, _, _ = self._alpha(cfg)
         evs = [("add", i) for i in range(len(keys))]
         evs += [("reload", ch) for ch in ("bytes", "hex", "file")]
-        evs.append(("union",))
+        evs.append(("union", "other"))
+        evs.append(("union", "empty"))
         evs.append(("clear",))
         return evs
 
@@ -125,16 +132,18 @@ class BloomSystem(System):
                 return ("ok", None)
             return r
         if kind == "union":
-            other = self._other(cfg, hf, keys)
+            empty = len(ev) > 1 and ev[1] == "empty"
+            other = BloomFilter(cfg["n"], cfg["p"], hash_function=hf) if empty else self._other(cfg, hf, keys)
             r = call(f.union, other)
             if r[0] == "ok" and r[1] is not None:
                 st.impl = r[1]
                 last = len(keys) - 1
-                if last not in m["keys"]:
+                if last not in m["keys"] and not empty:
                     m["keys"] = sorted(m["keys"] + [last])
                 m["count"] = r[1].elements_added  # verified against the reference estimate by the C14 step oracle
-                if "union" not in m["via"]:
-                    m["via"] = sorted(m["via"] + ["union"])
+                tag = "union_empty" if empty else "union"
+                if tag not in m["via"]:
+                    m["via"] = sorted(m["via"] + [tag])
                 return ("ok", "filter")
             return ("ok", None) if r[0] == "ok" else r
         raise ValueError(ev)
